@@ -412,11 +412,8 @@ func runHpack(casesPath, tracePath string) {
 					h := fnv.New64a()
 					h.Write(wire)
 					cut := int((h.Sum64() ^ seed*0x9e3779b97f4a7c15) % uint64(len(wire)+1))
-					if c.Limit != noLimit && cut == 0 && len(wire) > 0 {
-						// MOSN's parseHeadersFrame refuses a HEADERS frame whose block fragment is empty (x/net accepts
-						// it); that is a matter of the frame grammar (H2Frames), not of the compression context
-						cut = len(wire)
-					}
+					// cut = 0: the HEADERS frame carries an empty fragment and the whole block follows in the CONTINUATION
+					// (legal, RFC 7540 6.2 / 6.10; x/net accepts it)
 					out, verdict, derr := dec.Block(wire, cut)
 					tr.Emit(vh.Ev{"ev": "blk", "in": in, "wire": reps, "out": out, "verdict": verdict, "err": errStr(derr), "perr": errStr(perr),
 						"enc": enc.Table(), "dec": dec.Table(), "cut": cut, "len": len(wire)})
